@@ -332,6 +332,101 @@ theorem C15_unwind_info (v : View) (t : Ref) (i : Nat) :
       RefOK v.img ⟨im.off + 4, 2 * byteAt v.b (im.off + 2), 1⟩ :=
   unwindInfo_safe v t i
 
+/-- **`Function::unwind_info`, exactly.**  With `s` the readable bytes at RVA `UnwindData` (`Pe::slice` with minimum
+4 and alignment 1 = `align_of::<UNWIND_INFO>()`; `View.at`, C04 / C05): the answer is `Ok` iff that window exists and
+holds the 4-byte header plus `CountOfCodes` (the byte at +2) 2-byte codes, and the UNWIND_INFO handed out is the
+FIRST 4 bytes of the window; a window too short for the declared codes is `Bounds`; when the RVA does not resolve, the
+error of the resolution (`Null` for `UnwindData = 0`). -/
+theorem C15_unwind_info_iff (v : View) (t : Ref) (i : Nat) :
+    (∀ im, unwindInfo v t i = .ok im ↔
+      ∃ s, v.at (.rva (rfUnwind v.b t i)) 4 1 = .ok s ∧ im = ⟨s.off, 4, 1⟩ ∧
+        4 + 2 * byteAt v.b (s.off + 2) ≤ s.len) ∧
+    (∀ s, v.at (.rva (rfUnwind v.b t i)) 4 1 = .ok s → s.len < 4 + 2 * byteAt v.b (s.off + 2) →
+      unwindInfo v t i = .err .bounds) ∧
+    (∀ e, v.at (.rva (rfUnwind v.b t i)) 4 1 = .err e → unwindInfo v t i = .err e) ∧
+    (rfUnwind v.b t i = 0 → unwindInfo v t i = .err .null) := by
+  refine ⟨unwindInfo_ok_iff v t i, (unwindInfo_errors v t i).1, (unwindInfo_errors v t i).2, fun h0 => ?_⟩
+  apply (unwindInfo_errors v t i).2
+  rw [h0]
+  exact (C05_null v 4 1).1
+
+/-- … in a MAPPED view the window starts at buffer offset `UnwindData` and runs to the end of the image: the
+UNWIND_INFO is at offset `UnwindData`, and it is returned iff header and codes end inside the image. -/
+theorem C15_unwind_info_mapped (v : View) (hk : v.kind = .view) (t : Ref) (i : Nat) (im : Ref) :
+    unwindInfo v t i = .ok im ↔
+      rfUnwind v.b t i ≠ 0 ∧
+      rfUnwind v.b t i + 4 + 2 * byteAt v.b (rfUnwind v.b t i + 2) ≤ v.b.size ∧
+      im = ⟨rfUnwind v.b t i, 4, 1⟩ := by
+  rw [unwindInfo_ok_iff]
+  have e : v.at (.rva (rfUnwind v.b t i)) 4 1 = sliceSection v.img (rfUnwind v.b t i) 4 1 := by
+    unfold View.at View.slice; rw [hk]
+  rw [e, sliceSection_eq]
+  have hsz : v.b.size = v.img.bytes.size := rfl
+  by_cases h0 : rfUnwind v.b t i = 0
+  · rw [if_pos h0]
+    constructor
+    · rintro ⟨s, hs, _⟩; cases hs
+    · rintro ⟨h, _⟩; exact absurd h0 h
+  · rw [if_neg h0, if_pos isPow2_1, if_pos (Nat.mod_one _)]
+    by_cases hb : rfUnwind v.b t i ≤ v.img.bytes.size ∧ v.img.bytes.size - rfUnwind v.b t i ≥ 4
+    · rw [if_pos hb]
+      constructor
+      · rintro ⟨s, hs, rfl, hle⟩
+        cases hs
+        simp only at hle
+        exact ⟨h0, by omega, rfl⟩
+      · rintro ⟨_, hle, rfl⟩
+        exact ⟨_, rfl, rfl, by simp only; omega⟩
+    · rw [if_neg hb]
+      constructor
+      · rintro ⟨s, hs, _⟩; cases hs
+      · rintro ⟨_, hle, _⟩; omega
+
+/-- The bit fields of UNWIND_INFO against the byte values: `version` / `flags` are the low 3 / high 5 bits of byte 0
+(`VersionFlags & 0b111`, `>> 3`), `size_of_prolog` is byte 1, `CountOfCodes` byte 2, `frame_register` / `frame_offset`
+the low / high nibble of byte 3 (`FrameRegisterOffset & 0b1111`, `>> 4`); the two bytes are recovered from their
+fields. -/
+theorem C15_unwind_bitfields (b : Bytes) (im : Ref) :
+    uwVersion b im = byteAt b im.off &&& 0b00000111 ∧
+    uwFlags b im = byteAt b im.off >>> 3 ∧
+    uwSizeOfProlog b im = byteAt b (im.off + 1) ∧
+    uwCountOfCodes b im = byteAt b (im.off + 2) ∧
+    uwFrameRegister b im = byteAt b (im.off + 3) &&& 0b00001111 ∧
+    uwFrameOffset b im = byteAt b (im.off + 3) >>> 4 ∧
+    byteAt b im.off = uwVersion b im + 8 * uwFlags b im ∧ uwVersion b im < 8 ∧ uwFlags b im < 32 ∧
+    byteAt b (im.off + 3) = uwFrameRegister b im + 16 * uwFrameOffset b im ∧
+    uwFrameRegister b im < 16 ∧ uwFrameOffset b im < 16 := by
+  have h0 := byteAt_lt b im.off
+  have h3 := byteAt_lt b (im.off + 3)
+  have a3 : byteAt b im.off &&& 0b00000111 = byteAt b im.off % 8 := Nat.and_two_pow_sub_one_eq_mod _ 3
+  have a4 : byteAt b (im.off + 3) &&& 0b00001111 = byteAt b (im.off + 3) % 16 := Nat.and_two_pow_sub_one_eq_mod _ 4
+  have s3 : byteAt b im.off >>> 3 = byteAt b im.off / 8 := by rw [Nat.shiftRight_eq_div_pow]
+  have s4 : byteAt b (im.off + 3) >>> 4 = byteAt b (im.off + 3) / 16 := by rw [Nat.shiftRight_eq_div_pow]
+  unfold uwVersion uwFlags uwSizeOfProlog uwCountOfCodes uwFrameRegister uwFrameOffset
+  rw [a3, a4, s3, s4]
+  refine ⟨rfl, rfl, rfl, rfl, rfl, rfl, ?_, ?_, ?_, ?_, ?_, ?_⟩ <;> omega
+
+/-- Instances: PE32 and PE32+ mapped views (`UnwindData` 312 / 328, one unwind code each); `VersionFlags = 0x19` is
+version 1 with flags 3, `FrameRegisterOffset = 0x35` register 5 with offset 3; with the image ending 304 bytes after the
+header, `CountOfCodes = 150` (4 + 300 bytes) still fits and 151 is `Bounds`. -/
+example :
+    demoView.at (.rva (rfUnwind demoView.b ⟨320, 36, 4⟩ 0)) 4 1 = .ok ⟨312, 304, 1⟩ ∧
+    unwindInfo demoView ⟨320, 36, 4⟩ 0 = .ok ⟨312, 4, 1⟩ ∧ uwCountOfCodes demoBytes ⟨312, 4, 1⟩ = 1 ∧
+    demoView64.at (.rva (rfUnwind demoView64.b ⟨336, 24, 4⟩ 0)) 4 1 = .ok ⟨328, 336, 1⟩ ∧
+    unwindInfo demoView64 ⟨336, 24, 4⟩ 0 = .ok ⟨328, 4, 1⟩ ∧
+    (let b := (demoBytes.set! 312 0x19).set! 315 0x35
+     uwVersion b ⟨312, 4, 1⟩ = 1 ∧ uwFlags b ⟨312, 4, 1⟩ = 3 ∧ uwSizeOfProlog b ⟨312, 4, 1⟩ = 2 ∧
+     uwFrameRegister b ⟨312, 4, 1⟩ = 5 ∧ uwFrameOffset b ⟨312, 4, 1⟩ = 3) ∧
+    unwindInfo ⟨⟨demoBytes.set! 314 150, 0⟩, .pe32, .view, 0x400000⟩ ⟨320, 36, 4⟩ 0 = .ok ⟨312, 4, 1⟩ ∧
+    unwindInfo ⟨⟨demoBytes.set! 314 151, 0⟩, .pe32, .view, 0x400000⟩ ⟨320, 36, 4⟩ 0 = .err .bounds ∧
+    -- the hypothesis of `C15_unwind_info_mapped`; record 1 has `UnwindData` = 0: `Null`; and the same bytes as a FILE
+    -- view (no section maps RVA 312): the error of the resolution
+    demoView.kind = .view ∧ demoView64.kind = .view ∧
+    rfUnwind demoBytes ⟨320, 36, 4⟩ 1 = 0 ∧ unwindInfo demoView ⟨320, 36, 4⟩ 1 = .err .null ∧
+    demoFile.kind = .file ∧ demoFile.at (.rva 312) 4 1 = .err .bounds ∧
+    unwindInfo demoFile ⟨320, 36, 4⟩ 0 = .err .bounds := by
+  decide +kernel
+
 /-! ## debug directory -/
 
 /-- The directory is `Size / 28` IMAGE_DEBUG_DIRECTORY records at the directory's RVA; `Invalid` when
@@ -575,6 +670,147 @@ theorem C15_debug_entry_safe (v : View) (d : Nat) :
   unfold dirEntry
   simp only
   rw [if_neg h1, if_neg h2, if_neg h3]
+
+/-- **`Dir::entry` dispatches on `Type`, exactly** (`src/pe64/debug.rs`): `IMAGE_DEBUG_TYPE_CODEVIEW` (2) is what
+`code_view` answers, wrapped as `Entry::CodeView`; `IMAGE_DEBUG_TYPE_MISC` (4) what `dbg` answers, as `Entry::Dbg`;
+`IMAGE_DEBUG_TYPE_POGO` (13) what `pgo` answers, as `Entry::Pgo` — value or error alike (`Spec.wrapEntry`) —; every
+other `Type` is `Entry::Unknown` of the raw data, never an error. -/
+theorem C15_debug_entry_dispatch (v : View) (d : Nat) :
+    (ddType v.b d = Spec.typeCodeView → dirEntry v d = Spec.wrapEntry .codeView (codeView v d)) ∧
+    (ddType v.b d = Spec.typeMisc → dirEntry v d = Spec.wrapEntry .dbg (dbgEntry v d)) ∧
+    (ddType v.b d = Spec.typePogo → dirEntry v d = Spec.wrapEntry .pgo (pgoEntry v d)) ∧
+    (ddType v.b d ≠ Spec.typeCodeView → ddType v.b d ≠ Spec.typeMisc → ddType v.b d ≠ Spec.typePogo →
+      dirEntry v d = .ok (.unknown (dirData v d))) := by
+  unfold Spec.typeCodeView Spec.typeMisc Spec.typePogo dirEntry
+  simp only
+  refine ⟨fun h => ?_, fun h => ?_, fun h => ?_, fun h1 h2 h3 => ?_⟩
+  · rw [if_pos h]; exact wrapEntry_eq_bind _ _
+  · rw [if_neg (by omega), if_pos h]; exact wrapEntry_eq_bind _ _
+  · rw [if_neg (by omega), if_neg (by omega), if_pos h]; exact wrapEntry_eq_bind _ _
+  · rw [if_neg h1, if_neg h2, if_neg h3]
+
+/-- **`pgo`, exactly** (`Entry::Pgo`): `Ok` iff the raw data exists, is at least one dword long and dword aligned in
+memory; the `Pgo` image is then the WHOLE dwords of the raw data (`SizeOfData / 4` of them, a ragged tail dropped),
+starting at the raw data.  Otherwise: no raw data or fewer than 4 bytes ⇒ `Bounds`, misplaced ⇒ `Misaligned`. -/
+theorem C15_pgo_entry_iff (v : View) (d : Nat) :
+    (∀ r, pgoEntry v d = .ok r ↔
+      ∃ data, dirData v d = some data ∧ 4 ≤ data.len ∧ (v.img.base + data.off) % 4 = 0 ∧
+        r = ⟨data.off, 4 * (data.len / 4), 4⟩) ∧
+    (dirData v d = none → pgoEntry v d = .err .bounds) ∧
+    (∀ data, dirData v d = some data → data.len < 4 → pgoEntry v d = .err .bounds) ∧
+    (∀ data, dirData v d = some data → 4 ≤ data.len → (v.img.base + data.off) % 4 ≠ 0 →
+      pgoEntry v d = .err .misaligned) :=
+  ⟨pgoEntry_ok_iff v d, pgoEntry_errors v d⟩
+
+/-- **`dbg`, exactly** (`Entry::Dbg`, IMAGE_DEBUG_MISC): `Ok` iff the raw data exists, holds the 12-byte header
+(`size_of::<IMAGE_DEBUG_MISC>()`) and is dword aligned in memory; the image is the first 12 bytes of the raw data, whose
+`DataType` / `Length` / `Unicode` fields are the dwords at +0 / +4 and the byte at +8. -/
+theorem C15_dbg_entry_iff (v : View) (d : Nat) :
+    (∀ r, dbgEntry v d = .ok r ↔
+      ∃ data, dirData v d = some data ∧ 12 ≤ data.len ∧ (v.img.base + data.off) % 4 = 0 ∧ r = ⟨data.off, 12, 4⟩) ∧
+    (dirData v d = none → dbgEntry v d = .err .bounds) ∧
+    (∀ data, dirData v d = some data → data.len < 12 → dbgEntry v d = .err .bounds) ∧
+    (∀ data, dirData v d = some data → 12 ≤ data.len → (v.img.base + data.off) % 4 ≠ 0 →
+      dbgEntry v d = .err .misaligned) ∧
+    (∀ m, miscDataType v.b m = le32 v.b m ∧ miscLength v.b m = le32 v.b (m + 4) ∧ miscUnicode v.b m = byteAt v.b (m + 8)) :=
+  ⟨dbgEntry_ok_iff v d, (dbgEntry_errors v d).1, (dbgEntry_errors v d).2.1, (dbgEntry_errors v d).2.2,
+    fun _ => ⟨rfl, rfl, rfl⟩⟩
+
+/-- **From the directory entry to the records.**  A debug entry of `Type` POGO whose raw data (`Dir::data`: `SizeOfData`
+bytes at `PointerToRawData` / `AddressOfRawData`, `C15_debug_data`) is dword aligned and holds, after the signature
+dword, records (rva, size, NUL-terminated name padded to a dword boundary) laid out back to back and filling the whole
+dwords of the data up to less than one minimal record: `entry()` is `Entry::Pgo` over the whole dwords of the raw data
+and iterating it yields exactly those records, in order — their rva, size and name (referenced in place). -/
+theorem C15_debug_entry_pogo_records (v : View) (d : Nat) (data : Ref) (recs : List (Nat × Nat × Nat)) (stop : Nat)
+    (hty : ddType v.b d = Spec.typePogo) (hd : dirData v d = some data) (h4 : 4 ≤ data.len)
+    (hal : (v.img.base + data.off) % 4 = 0)
+    (hl : Spec.PogoLayout v.b (data.off + 4) recs stop)
+    (h1 : stop ≤ data.off + 4 * (data.len / 4)) (h2 : data.off + 4 * (data.len / 4) < stop + 12) :
+    dirEntry v d = .ok (.pgo ⟨data.off, 4 * (data.len / 4), 4⟩) ∧
+    pgoItems v.b ⟨data.off, 4 * (data.len / 4), 4⟩ = .ok (Spec.pogoExpected (data.off + 4) recs) ∧
+    (Spec.pogoExpected (data.off + 4) recs).map (fun it => (it.rva, it.size, it.name.len - 1)) = recs := by
+  have he : pgoEntry v d = .ok ⟨data.off, 4 * (data.len / 4), 4⟩ :=
+    (pgoEntry_ok_iff v d _).2 ⟨data, hd, h4, hal, rfl⟩
+  refine ⟨?_, ?_, ?_⟩
+  · rw [(C15_debug_entry_dispatch v d).2.2.1 hty, he]; rfl
+  · apply C15_pogo_records v.b ⟨data.off, 4 * (data.len / 4), 4⟩ recs stop
+    · simp only; omega
+    · exact hl
+    · simp only; omega
+    · simp only; omega
+  · -- the expected items carry the records' (rva, size, name length)
+    have key : ∀ (recs : List (Nat × Nat × Nat)) (off : Nat),
+        (Spec.pogoExpected off recs).map (fun it => (it.rva, it.size, it.name.len - 1)) = recs := by
+      intro recs
+      induction recs with
+      | nil => intro off; rfl
+      | cons r rest ih =>
+        intro off
+        obtain ⟨rva, size, n⟩ := r
+        simp only [Spec.pogoExpected, List.map_cons, Nat.add_sub_cancel, ih]
+    exact key recs _
+
+/-- … and the same for `Type` MISC: the IMAGE_DEBUG_MISC header at the start of the raw data. -/
+theorem C15_debug_entry_misc (v : View) (d : Nat) (data : Ref)
+    (hty : ddType v.b d = Spec.typeMisc) (hd : dirData v d = some data) (h12 : 12 ≤ data.len)
+    (hal : (v.img.base + data.off) % 4 = 0) :
+    dirEntry v d = .ok (.dbg ⟨data.off, 12, 4⟩) ∧ RefOK v.img ⟨data.off, 12, 4⟩ := by
+  have he : dbgEntry v d = .ok ⟨data.off, 12, 4⟩ := (dbgEntry_ok_iff v d _).2 ⟨data, hd, h12, hal, rfl⟩
+  refine ⟨?_, (dbgEntry_safe v d).2 _ he |>.1⟩
+  rw [(C15_debug_entry_dispatch v d).2.1 hty, he]; rfl
+
+/-- Instances of the hypotheses of `C15_debug_entry_pogo_records` / `_misc`.  PE32 mapped view `demoView`: the second
+entry (at 456) is POGO data at 388 (40 bytes: "LTCG", two records).  PE32+ mapped view and PE32 FILE view: the NB10
+entry of `demoBytes64` (at 444) / `demoFileBytes` (at 376, raw data through `PointerToRawData` = 352) with its `Type`
+rewritten to 13 and to 4 — the 22 raw bytes read as POGO data are five whole dwords: a signature and one record
+(rva = the old `Offset`, size = the old `TimeDateStamp`, the one-character name "\x03" = the old `Age`). -/
+example :
+    ddType demoView.b 456 = Spec.typePogo ∧ dirData demoView 456 = some ⟨388, 40, 1⟩ ∧
+    (demoView.img.base + 388) % 4 = 0 ∧
+    dirEntry demoView 456 = .ok (.pgo ⟨388, 40, 4⟩) ∧
+    pgoItems demoView.b ⟨388, 40, 4⟩ = .ok (Spec.pogoExpected 392 [(4096, 16, 5), (8192, 32, 9)]) := by
+  have h := C15_debug_entry_pogo_records demoView 456 ⟨388, 40, 1⟩ [(4096, 16, 5), (8192, 32, 9)] 428
+    (by decide +kernel) (by decide +kernel) (by decide) (by decide)
+    (.cons 392 4096 16 5 _ 428 (by decide +kernel) (by decide +kernel) (by decide +kernel) (by decide +kernel)
+      (.cons 408 8192 32 9 _ 428 (by decide +kernel) (by decide +kernel) (by decide +kernel) (by decide +kernel)
+        (.nil 428)))
+    (by decide) (by decide)
+  exact ⟨by decide +kernel, by decide +kernel, by decide, h.1, h.2.1⟩
+
+example :
+    let v64 : View := ⟨⟨demoBytes64.set! 456 13, 0⟩, .pe64, .view, 0x140000000⟩
+    let f32 : View := ⟨⟨demoFileBytes.set! 388 13, 0⟩, .pe32, .file, 0x400000⟩
+    (dirEntry v64 444 = .ok (.pgo ⟨392, 20, 4⟩) ∧
+      pgoItems v64.b ⟨392, 20, 4⟩ = .ok [⟨0, 0x5F112233, ⟨404, 2, 1⟩⟩]) ∧
+    (f32.kind = .file ∧ ddPointerToRawData f32.b 376 = 352 ∧ dirEntry f32 376 = .ok (.pgo ⟨352, 20, 4⟩) ∧
+      pgoItems f32.b ⟨352, 20, 4⟩ = .ok [⟨0, 0x5F445566, ⟨364, 2, 1⟩⟩]) := by
+  intro v64 f32
+  have h64 := C15_debug_entry_pogo_records v64 444 ⟨392, 22, 1⟩ [(0, 0x5F112233, 1)] 408
+    (by decide +kernel) (by decide +kernel) (by decide) (by decide)
+    (.cons 396 0 0x5F112233 1 _ 408 (by decide +kernel) (by decide +kernel) (by decide +kernel) (by decide +kernel)
+      (.nil 408))
+    (by decide) (by decide)
+  have hf := C15_debug_entry_pogo_records f32 376 ⟨352, 22, 1⟩ [(0, 0x5F445566, 1)] 368
+    (by decide +kernel) (by decide +kernel) (by decide) (by decide)
+    (.cons 356 0 0x5F445566 1 _ 368 (by decide +kernel) (by decide +kernel) (by decide +kernel) (by decide +kernel)
+      (.nil 368))
+    (by decide) (by decide)
+  exact ⟨⟨h64.1, h64.2.1⟩, by decide, by decide +kernel, hf.1, hf.2.1⟩
+
+example :
+    let v64 : View := ⟨⟨demoBytes64.set! 456 4, 0⟩, .pe64, .view, 0x140000000⟩
+    let f32 : View := ⟨⟨demoFileBytes.set! 388 4, 0⟩, .pe32, .file, 0x400000⟩
+    dirEntry v64 444 = .ok (.dbg ⟨392, 12, 4⟩) ∧ miscDataType v64.b 392 = 0x3031424E ∧
+    dirEntry f32 376 = .ok (.dbg ⟨352, 12, 4⟩) ∧
+    -- the same entries in a buffer at an address that is 2 mod 4: `Misaligned`; with `SizeOfData` cut to 11 / 3: `Bounds`
+    dbgEntry ⟨⟨demoBytes64.set! 456 4, 2⟩, .pe64, .view, 0x140000000⟩ 444 = .err .misaligned ∧
+    pgoEntry ⟨⟨demoBytes64.set! 456 13, 2⟩, .pe64, .view, 0x140000000⟩ 444 = .err .misaligned ∧
+    dbgEntry ⟨⟨demoBytes64.set! 460 11, 0⟩, .pe64, .view, 0x140000000⟩ 444 = .err .bounds ∧
+    pgoEntry ⟨⟨demoBytes64.set! 460 3, 0⟩, .pe64, .view, 0x140000000⟩ 444 = .err .bounds := by
+  intro v64 f32
+  have h64 := C15_debug_entry_misc v64 444 ⟨392, 22, 1⟩ (by decide +kernel) (by decide +kernel) (by decide) (by decide)
+  have hf := C15_debug_entry_misc f32 376 ⟨352, 22, 1⟩ (by decide +kernel) (by decide +kernel) (by decide) (by decide)
+  exact ⟨h64.1, by decide +kernel, hf.1, by decide +kernel, by decide +kernel, by decide +kernel, by decide +kernel⟩
 
 /-! ## TLS directory -/
 
